@@ -139,49 +139,133 @@ def body(ctx):
     VAL.run()
     handle_side(ctx, prog, viol)
     ctx.twin('c09.twin', [], z3.BoolVal(npaths == 0))
-    for v in viol[:5]:
-        ctx.inconclusive.append(f"C09 counterexample (no native replay generator for this family yet): {v}")
-    if viol:
-        ctx.violations_unreplayed = viol
+    from ioreplay import PRELUDE
+    fams = {}
+    for v in viol:
+        fams.setdefault('stale-wakeup' if v[0] == 'stale-wakeup' else 'handle-after-close', v)
+    if 'stale-wakeup' in fams:
+        ctx.report('stale-wakeup', f"a wake-up for a channel the server just closed is not ignored: {str(fams['stale-wakeup'])[:300]}", {'solver_counterexample': str(fams['stale-wakeup'])[:400]},
+                   PRELUDE + STALE_TEST, inject_into='src/io_loop/mod.rs', profiles=('dev',), panic_is_violation=True)
+    if 'handle-after-close' in fams:
+        ctx.report('handle-after-close', f"channel handle after a server Channel.Close: {str(fams['handle-after-close'])[:300]}", {'solver_counterexample': str(fams['handle-after-close'])[:400]},
+                   HANDLE_TEST, inject_into='src/io_loop/io_loop_handle.rs', profiles=('dev',), hang_is_violation=True, panic_is_violation=True)
+
+
+def handle_ops(prog):
+    """every way a channel handle hands something to the I/O thread: (name, function, argument builder, generic binding)"""
+    BM = 'amq_protocol::protocol::basic::AMQPMethod'
+    H = lambda n: prog.method('IoLoopHandle', n)
+    props = lambda: Ref(Cell(Agg({}, 'AMQPProperties', 'h.props'), 'props'))
+    body = lambda: Ref(Cell(SliceVal(None, b64(0), sym('h.body.len', BV64), 'h.body'), 'body'))
+    return [
+        ('call_nowait', H('call_nowait'), lambda k: [Lazy(BM, f'h.method{k}')], {'M': BM}),
+        ('call', H('call'), lambda k: [Lazy(BM, f'h.method{k}')], {'M': BM, 'T': 'amq_protocol::protocol::basic::QosOk'}),
+        ('get', H('get'), lambda k: [Lazy('amq_protocol::protocol::basic::Get', f'h.get{k}')], {}),
+        ('consume', H('consume'), lambda k: [Lazy('amq_protocol::protocol::basic::Consume', f'h.consume{k}')], {}),
+        ('send_content_header', H('send_content_header'), lambda k: [Int(sym('h.class', BV16), 16), Int(sym('h.len', BV64), 64), props()], {}),
+        ('send_content_body', H('send_content_body'), lambda k: [body()], {}),
+        ('set_return_handler', H('set_return_handler'), lambda k: [mk_option()], {}),
+        ('set_pub_confirm_handler', H('set_pub_confirm_handler'), lambda k: [mk_option()], {}),
+    ]
 
 
 def handle_side(ctx, prog, viol):
-    """the channel handle after the I/O thread dropped its slot: queued error first, then EventLoopDropped"""
+    """the channel handle after the I/O thread dropped its slot: whatever operation comes next reports the queued error,
+    operations after that EventLoopDropped; nothing blocks"""
     ex = io_executor(ctx, prog)
-    f_nowait = prog.method('IoLoopHandle', 'call_nowait')
-    st = State()
-    cid = z3.BitVec('h.chan', 16)
-    code, text = z3.BitVec('h.code', 16), sym('h.text', StrSort)
     vs = prog.types.variants('errors::Error')
-    err = Enum(vs.index('ServerClosedChannel'), {vs.index('ServerClosedChannel'): Agg({0: Int(cid, 16), 1: Int(code, 16), 2: Str(text)})}, 'errors::Error')
-    reply = Chan('h.reply', 2, True)
-    reply.queue.append(mk_err(err))
-    reply.senders = 0
-    txc = Chan('h.tx', None, False)   # the I/O thread dropped the receiver
-    handle = mk_struct(prog, 'IoLoopHandle', channel_id=Int(cid, 16), buf=Agg({0: ByteVec('h.buf')}, 'OutputBuffer'), tx=SenderVal(txc), rx=ReceiverVal(reply))
-    st.roots['h'] = Cell(handle, 'handle')
-    meth = Lazy('amq_protocol::protocol::basic::AMQPMethod', 'h.method')
-    bind = {'M': 'amq_protocol::protocol::basic::AMQPMethod'}
     n = 0
-    for (s1, rv1) in ex.run(st, f_nowait, [Ref(st.roots['h']), meth], bind=bind):
-        n += 1
-        ok1 = False
-        c1 = z3.BoolVal(False)
-        if not isinstance(rv1, Panic) and rv1.disc == 1:
-            e = err_value(rv1)
-            if variant_name(prog, e, 'errors::Error') == 'ServerClosedChannel':
-                ef = error_fields(prog, e, 'ServerClosedChannel')
-                c1 = z3.And(ef['channel_id'].bv == cid, ef['code'].bv == code, ef['message'].s == text)
-        m = ctx.decide(f"c09.handle.first-call#{n}", s1.pc, c1, group='handle: the queued ServerClosedChannel error surfaces on the next call, later calls fail with EventLoopDropped, nothing blocks')
-        if m is not None:
-            viol.append(('handle-first', err_name(prog, rv1)))
-            continue
-        meth2 = Lazy('amq_protocol::protocol::basic::AMQPMethod', 'h.method2')
-        for (s2, rv2) in ex.run(s1, f_nowait, [Ref(s1.roots['h']), meth2], bind=bind):
-            m = ctx.decide(f"c09.handle.later-call#{n}", s2.pc, z3.BoolVal(err_name(prog, rv2) == 'EventLoopDropped'),
-                           group='handle: the queued ServerClosedChannel error surfaces on the next call, later calls fail with EventLoopDropped, nothing blocks')
+    for (name, f, mkargs, bind) in handle_ops(prog):
+        st = State()
+        cid = z3.BitVec('h.chan', 16)
+        code, text = z3.BitVec('h.code', 16), sym('h.text', StrSort)
+        err = Enum(vs.index('ServerClosedChannel'), {vs.index('ServerClosedChannel'): Agg({0: Int(cid, 16), 1: Int(code, 16), 2: Str(text)})}, 'errors::Error')
+        reply = Chan('h.reply', 2, True)
+        reply.queue.append(mk_err(err))
+        reply.senders = 0
+        txc = Chan('h.tx', None, False)   # the I/O thread dropped the receiver
+        handle = mk_struct(prog, 'IoLoopHandle', channel_id=Int(cid, 16), buf=Agg({0: ByteVec('h.buf')}, 'OutputBuffer'), tx=SenderVal(txc), rx=ReceiverVal(reply))
+        st.roots['h'] = Cell(handle, 'handle')
+        st.pc.append(z3.ULE(sym('h.body.len', BV64), 1 << 32))   # a slice is at most isize::MAX bytes; one body chunk is at most frame_max (u32)
+        for (s1, rv1) in ex.run(st, f, [Ref(st.roots['h'])] + mkargs(1), bind=bind):
+            n += 1
+            c1 = z3.BoolVal(False)
+            if not isinstance(rv1, Panic) and rv1.disc == 1:
+                e = err_value(rv1)
+                if variant_name(prog, e, 'errors::Error') == 'ServerClosedChannel':
+                    ef = error_fields(prog, e, 'ServerClosedChannel')
+                    c1 = z3.And(ef['channel_id'].bv == cid, ef['code'].bv == code, ef['message'].s == text)
+            m = ctx.decide(f"c09.handle.first[{name}]#{n}", s1.pc, c1, group='handle: the queued ServerClosedChannel error surfaces on the next operation of any kind, later operations fail with EventLoopDropped, nothing blocks')
             if m is not None:
-                viol.append(('handle-later', err_name(prog, rv2)))
+                viol.append(('handle-first', name, err_name(prog, rv1)))
+                continue
+            for (name2, f2, mkargs2, bind2) in handle_ops(prog)[:ctx.q(2, 8)]:
+                for (s2, rv2) in ex.run(s1.fork(), f2, [Ref(s1.roots['h'])] + mkargs2(2), bind=bind2):
+                    m = ctx.decide(f"c09.handle.later[{name},{name2}]#{n}", s2.pc, z3.BoolVal(err_name(prog, rv2) == 'EventLoopDropped'),
+                                   group='handle: the queued ServerClosedChannel error surfaces on the next operation of any kind, later operations fail with EventLoopDropped, nothing blocks')
+                    if m is not None:
+                        viol.append(('handle-later', name2, err_name(prog, rv2)))
+
+
+STALE_TEST = r"""
+#[test]
+fn verif_replay_c09_stale() {
+    let mut bad: Vec<String> = Vec::new();
+    for pending in [true, false].iter() {
+        let mut w = mk_world(true);
+        add_chan(&mut w, "A", 3, &["t"], false, false);
+        add_chan(&mut w, "B", 5, &[], false, false);
+        ready(&mut w);
+        let tx = w.slots[0].mio_tx.take().unwrap();
+        if *pending {
+            // the client handed something to the I/O thread just before the server's close was read
+            let mut b = crate::serialize::OutputBuffer::empty(); b.push_heartbeat();
+            tx.send(IoLoopMessage::Send(b)).unwrap();
+        } else { drop(tx); }
+        step(&mut w, AMQPFrame::Method(3, AMQPClass::Channel(channel::AMQPMethod::Close(channel::Close { reply_code: 404, reply_text: "gone".into(), class_id: 0, method_id: 0 }))));
+        let before = w.inner.outbuf.len();
+        let r = w.inner.handle_channel_readable(3);
+        if r.is_err() || w.inner.outbuf.len() != before { bad.push(format!("pending={}:result={:?}:appended={}", pending, r, w.inner.outbuf.len() - before)); }
+        if w.inner.handle_channel_readable(5).is_err() { bad.push("other-channel-disturbed".into()); }
+    }
+    if bad.is_empty() { println!("VERIF-REPLAY-OK"); } else { println!("VERIF-REPLAY-VIOLATION stale-wakeup {}", bad.join(";").replace(' ', "_")); }
+}
+"""
+
+HANDLE_TEST = r"""
+use super::*;
+#[test]
+fn verif_replay_c09_handle() {
+    use amq_protocol::protocol::basic;
+    let mut bad: Vec<String> = Vec::new();
+    let ops: Vec<(&str, Box<dyn Fn(&mut IoLoopHandle) -> Result<()>>)> = vec![
+        ("call_nowait", Box::new(|h| h.call_nowait(basic::AMQPMethod::Ack(basic::Ack { delivery_tag: 1, multiple: false })))),
+        ("call", Box::new(|h| h.call::<_, basic::QosOk>(basic::AMQPMethod::Qos(basic::Qos { prefetch_size: 0, prefetch_count: 1, global: false })).map(|_| ()))),
+        ("get", Box::new(|h| h.get(basic::Get { ticket: 0, queue: "q".into(), no_ack: false }).map(|_| ()))),
+        ("consume", Box::new(|h| h.consume(basic::Consume { ticket: 0, queue: "q".into(), consumer_tag: "".into(), no_local: false, no_ack: false, exclusive: false, nowait: false, arguments: Default::default() }).map(|_| ()))),
+        ("send_content_header", Box::new(|h| h.send_content_header(60, 10, &Default::default()))),
+        ("send_content_body", Box::new(|h| h.send_content_body(&[1u8, 2, 3]))),
+        ("set_return_handler", Box::new(|h| h.set_return_handler(None))),
+        ("set_pub_confirm_handler", Box::new(|h| h.set_pub_confirm_handler(None))),
+    ];
+    for (name, op) in ops.iter() {
+        for (name2, op2) in ops.iter() {
+            // the I/O thread removed the slot after a server Channel.Close: its receiver is gone, the error is queued, the reply sender dropped
+            let (mio_tx, mio_rx) = mio_extras::channel::sync_channel(4);
+            let (tx, rx) = crossbeam_channel::bounded(2);
+            tx.send(Err(crate::Error::ServerClosedChannel { channel_id: 7, code: 404, message: "gone".into() })).unwrap();
+            drop(tx); drop(mio_rx);
+            let mut h = IoLoopHandle::new(7, mio_tx, rx);
+            let first = format!("{:?}", op(&mut h));
+            let later = format!("{:?}", op2(&mut h));
+            if !(first.contains("ServerClosedChannel") && first.contains("404") && first.contains("gone")) { bad.push(format!("first:{}={}", name, first)); }
+            if !later.contains("EventLoopDropped") { bad.push(format!("later:{}={}", name2, later)); }
+        }
+    }
+    bad.sort(); bad.dedup();
+    if bad.is_empty() { println!("VERIF-REPLAY-OK"); } else { println!("VERIF-REPLAY-VIOLATION handle-after-close {}", bad.join(";").replace(' ', "_")); }
+}
+"""
 
 
 if __name__ == '__main__':
